@@ -418,7 +418,7 @@ def write_evidence(check, tier, seed, agg, space_info, capped, t0, n_new, hit, n
     cov = {
         "evaluations": agg["n"],
         "programs": agg["cases"],
-        "distinct_nontrivial": len(agg["nt"]),
+        "distinct_nontrivial": len(agg["nt"]) if not check.state_based else max(len(agg["nt"]), len(agg["states"])),
         "rule": check.rule,
         "samples": samples[:40],
         "exhaustive": not capped,
